@@ -51,6 +51,103 @@ def _spread_divmod(tree: ast.AST) -> None:
             body[:] = out
 
 
+def _explicit_dataclass_init(tree: ast.AST) -> None:
+    """A dataclass that declares initial state (a field with a default or a field(...) spec) and no __init__ of its own reads as the
+    class with the __init__ the decorator generates: parameters in field order (keyword-only under kw_only), `self.f = f` for init
+    fields, `self.f = <default>` / a fresh `<factory>()` for init=False fields, then __post_init__. The class-level declarations stay as
+    bare annotations. A class using InitVar / inheritance from a dataclass of the same module is left alone."""
+    def is_dc(d: ast.expr) -> bool:
+        f = d.func if isinstance(d, ast.Call) else d
+        return (isinstance(f, ast.Name) and f.id == 'dataclass') or (isinstance(f, ast.Attribute) and f.attr == 'dataclass')
+    def kw(call: ast.Call, name: str) -> Optional[ast.expr]:
+        return next((k.value for k in call.keywords if k.arg == name), None)
+    def is_field(v: Optional[ast.expr]) -> bool:
+        return isinstance(v, ast.Call) and ((isinstance(v.func, ast.Name) and v.func.id == 'field') or
+                                            (isinstance(v.func, ast.Attribute) and v.func.attr == 'field'))
+    classes = [c for c in ast.walk(tree) if isinstance(c, ast.ClassDef)]
+    dcs = {c.name for c in classes if any(is_dc(d) for d in c.decorator_list)}
+    for c in classes:
+        dec = next((d for d in c.decorator_list if is_dc(d)), None)
+        if dec is None or any(isinstance(m, ast.FunctionDef) and m.name == '__init__' for m in c.body):
+            continue
+        if any(isinstance(b, ast.Name) and b.id in dcs for b in c.bases):
+            continue
+        if isinstance(dec, ast.Call) and isinstance(kw(dec, 'init'), ast.Constant) and kw(dec, 'init').value is False:      # type: ignore[union-attr]
+            continue
+        all_kw = isinstance(dec, ast.Call) and isinstance(kw(dec, 'kw_only'), ast.Constant) and bool(kw(dec, 'kw_only').value)  # type: ignore[union-attr]
+        decls = [st for st in c.body if isinstance(st, ast.AnnAssign) and isinstance(st.target, ast.Name)
+                 and 'ClassVar' not in ast.unparse(st.annotation)]
+        if not decls or not any(st.value is not None for st in decls) or any('InitVar' in ast.unparse(st.annotation) for st in decls):
+            continue
+        pos: List[Tuple[str, Optional[ast.expr]]] = []
+        kwo: List[Tuple[str, Optional[ast.expr]]] = []
+        body: List[ast.stmt] = []
+        ok = True
+        for st in decls:
+            name = st.target.id                                             # type: ignore[attr-defined]
+            default = factory = None
+            init, kwonly = True, all_kw
+            if is_field(st.value):
+                fc = st.value
+                if fc.args or any(k.arg is None for k in fc.keywords):      # type: ignore[union-attr]
+                    ok = False
+                    break
+                default, factory = kw(fc, 'default'), kw(fc, 'default_factory')     # type: ignore[arg-type]
+                for key, cur in (('init', init), ('kw_only', kwonly)):
+                    v = kw(fc, key)                                         # type: ignore[arg-type]
+                    if v is not None:
+                        if not isinstance(v, ast.Constant):
+                            ok = False
+                            break
+                        if key == 'init':
+                            init = bool(v.value)
+                        else:
+                            kwonly = bool(v.value)
+            else:
+                default = st.value
+            fresh: Optional[ast.expr] = None
+            if factory is not None:
+                fresh = ast.List(elts=[], ctx=ast.Load()) if isinstance(factory, ast.Name) and factory.id == 'list' else \
+                    ast.Dict(keys=[], values=[]) if isinstance(factory, ast.Name) and factory.id == 'dict' else \
+                    ast.Call(func=factory, args=[], keywords=[])
+            tgt = ast.Attribute(value=ast.Name(id='self', ctx=ast.Load()), attr=name, ctx=ast.Store())
+            if init:
+                if fresh is not None:
+                    (kwo if kwonly else pos).append((name, ast.Constant(value=None)))
+                    val: ast.expr = ast.IfExp(test=ast.Compare(left=ast.Name(id=name, ctx=ast.Load()), ops=[ast.Is()], comparators=[ast.Constant(value=None)]),
+                                              body=fresh, orelse=ast.Name(id=name, ctx=ast.Load()))
+                else:
+                    (kwo if kwonly else pos).append((name, default))
+                    val = ast.Name(id=name, ctx=ast.Load())
+                body.append(ast.Assign(targets=[tgt], value=val))
+            elif fresh is not None or default is not None:
+                body.append(ast.Assign(targets=[tgt], value=fresh if fresh is not None else default))
+        if not ok:
+            continue
+        if any(isinstance(m, ast.FunctionDef) and m.name == '__post_init__' for m in c.body):
+            body.append(ast.Expr(value=ast.Call(func=ast.Attribute(value=ast.Name(id='self', ctx=ast.Load()), attr='__post_init__', ctx=ast.Load()),
+                                                args=[], keywords=[])))
+        pdefs = [d for _, d in pos]
+        first_def = next((i for i, d in enumerate(pdefs) if d is not None), len(pdefs))
+        if any(d is None for d in pdefs[first_def:]):
+            continue                                                        # not a valid signature: the decorator would refuse it too
+        args = ast.arguments(posonlyargs=[], args=[ast.arg(arg='self')] + [ast.arg(arg=n) for n, _ in pos], vararg=None,
+                             kwonlyargs=[ast.arg(arg=n) for n, _ in kwo], kw_defaults=[d for _, d in kwo], kwarg=None,
+                             defaults=[d for d in pdefs if d is not None])
+        fn = ast.FunctionDef(name='__init__', args=args, body=body or [ast.Pass()], decorator_list=[], returns=ast.Constant(value=None),
+                             type_comment=None, type_params=[])
+        line = decls[0].lineno
+        for st in decls:
+            st.value = None
+            st.simple = 1
+        at = max(i for i, st in enumerate(c.body) if st in decls) + 1
+        c.body.insert(at, fn)
+        for nd in ast.walk(fn):
+            if not hasattr(nd, 'lineno'):
+                nd.lineno = nd.end_lineno = line                             # type: ignore[attr-defined]
+                nd.col_offset = nd.end_col_offset = 0                        # type: ignore[attr-defined]
+
+
 def _spread_tuple_tables(tree: ast.AST) -> None:
     """`a, b = {k1: (x1, y1), k2: (x2, y2)}[key]` - a literal table of equal-length constant tuples, key call-free - reads as
     `a = {k1: x1, k2: x2}[key]; b = {k1: y1, k2: y2}[key]` (in place): one table per column, the shape every rule already reads."""
@@ -157,6 +254,7 @@ class Repo:
             except SyntaxError as e:
                 raise AnalysisError(f'{rel} does not parse: {e}') from e
             _spread_divmod(tree)
+            _explicit_dataclass_init(tree)
             _inline_literal_tables(self, tree, rel)
             _spread_tuple_tables(tree)
             # locals renamed by an edit are renamed back to the vocabulary the rules use, where structure alone decides it
